@@ -38,7 +38,7 @@ def tasks(tier, seed):
     rnd = random.Random(f"c11/{seed}")
 
     def add(kind, n, K, k, P, gap, m=1, comp="superadditive_cached", **kw):
-        d = {"key": f"{kind}/n{n}/{comp}/{gap}/K={','.join(map(str, K))}/k={k}/P={P}/m={m}" + ("/anyclass" if kw.get("anyclass") else ""), "kind": kind, "n": n, "K": K, "k": k, "P": P,
+        d = {"key": f"{kind}/n{n}/{comp}/{gap}/K={','.join(map(str, K))}/k={k}/P={P}/m={m}" + ("/anyclass" if kw.get("anyclass") else "") + ("/via_steps" if kw.get("via_steps") else ""), "kind": kind, "n": n, "K": K, "k": k, "P": P,
              "gap": gap, "m": m, "computer": comp}
         d.update(kw)
         out.append(d)
@@ -72,6 +72,12 @@ def tasks(tier, seed):
     # n=4 with most coalitions initially known: few candidates per size, so every ordering of the running minimum is explored
     for init in ([3, 5, 6, 9, 10, 12], [3, 12, 7, 11, 13, 14], [5, 10, 7, 11, 13, 14], [6, 9, 3, 14, 13, 7]):
         add("best", 4, init, 2, rnd.choice([1, 2, 3]), rnd.choice(["exploitability", "l1_norm"]), rnd.choice([1, 2]))
+    # starting knowledge reached by STEPPING an environment that started from the minimal information ("any starting knowledge"):
+    # the environment's explorable coalitions are then more than the still-unknown ones
+    for K, k, P, m in (([3], 2, 1, 1), ([5], 3, 2, 1), ([3, 6], 1, 1, 2)):
+        add("best", 3, K, k, P, "exploitability", m, via_steps=True)
+    for init in ([3, 5, 6, 9, 10, 12], [5, 10, 7, 11, 13, 14]):
+        add("best", 4, init, 2, 1, "l1_norm", 1, via_steps=True)
     # best-states "for any game": no class assumption (gaps may be negative, e.g. hit the in-band 'no entry yet' marker);
     # values restricted to integer multiples of 12 in [-600, 600] so that a counterexample is float-exact
     add("best", 4, [3, 5, 6, 9], 1, 1, "exploitability", 1, anyclass=True)
@@ -178,7 +184,13 @@ def scenario(pk, params, inp):
         return out
     # best-states
     game = pk.game.IncompleteCooperativeGame(n, comp)
-    env = pk.icg_gym.ICG_Gym(game, gen, [C(S) for S in F.minimal(n)] + [C(S) for S in K], gapf)
+    if params.get("via_steps"):
+        env = pk.icg_gym.ICG_Gym(game, gen, [C(S) for S in F.minimal(n)], gapf)
+        ex0 = [c.id for c in env.explorable_coalitions]
+        for S in K:
+            env.step(ex0.index(S))
+    else:
+        env = pk.icg_gym.ICG_Gym(game, gen, [C(S) for S in F.minimal(n)] + [C(S) for S in K], gapf)
     d0 = counter["j"]
     best, best_actions = pk.run_best_states.get_best_exploitability(env, k, params["m"], gapf, processes=P)
     out = {"best": [[best[s][j] for j in range(params["m"])] for s in range(k + 1)], "best_actions": [list(map(int, a)) for a in best_actions],
@@ -229,6 +241,10 @@ def claims(params, inp, out, lg):
     for s in range(k + 1):
         col = out["best"][s]
         cands = out["cands"][s]
+        if not cands:
+            # more reveals than unknown coalitions: there is no set of that size, the property says nothing about the row
+            cl.append((f"no-set-of-that-size-is-reported:size={s}", out["best_actions"][s] == []))
+            continue
         mine = _mean(lg, col)
         cl.append((f"best-is-minimum:size={s}", lg.And([lg.le(mine, _mean(lg, row)) for _, row in cands])))
         # the reported set attains the reported column
